@@ -331,11 +331,17 @@ func c01StaticCheck(c *Ctx, cases []c01StaticCase, stream string, reported map[s
 		r.hist("static:" + stream + ":covered by the static model (plain or statically sized map calls of stages)")
 		if rep.frag {
 			r.hist("static:" + stream + ":inside-proved-fragment")
+			if strings.Contains(rep.kinds, "R") {
+				r.hist("static:" + stream + ":inside-proved-fragment with map calls of run-time size (given the recorded index sets)")
+			}
 			if strings.Contains(rep.kinds, "E") {
 				r.hist("static:" + stream + ":inside-proved-fragment with run-time disabled controls (modulo dnull->null)")
 			}
 		} else {
 			r.hist("static:" + stream + ":outside-proved-fragment (type check of the model)")
+			if strings.Contains(rep.kinds, "X") {
+				r.hist("static:" + stream + ":run-time sized fragment except the index sets (empty / null source, or recorded != source)")
+			}
 		}
 		if rep.static != cs.cg {
 			r.hist("static:" + stream + ":DIFF")
@@ -380,7 +386,7 @@ func c01StaticCheck(c *Ctx, cases []c01StaticCase, stream string, reported map[s
 				r.violate(Violation{Kind: "correspondence", Key: "C01:two-phase-vs-den",
 					What:   "twoPhase differs from den on a program that passes wellTypedB/acyclicB (the driver's encoding or the theorem's replay is broken)",
 					Input:  map[string]interface{}{"program": cs.src, "name": cs.name},
-					Broken: "resolver_refines_den_mapstatic_checked / resolver_refines_den_mappedpipes_checked / resolver_refines_den_disabled_checked"})
+					Broken: "resolver_refines_den_mapstatic_checked / resolver_refines_den_mappedpipes_checked / resolver_refines_den_disabled_checked / resolver_refines_den_runtime_checked"})
 			}
 		}
 		if rep.den == "eq" {
